@@ -297,17 +297,17 @@ STATIC char const * _soxr_init(
 
   if (io_ratio < 1 && Fs0 - 1 > 1 - Fp0 / tolerance)
     return "imaging greater than rolloff";
-  if (.002 / tolerance > tbw0 || tbw0 > .5 * tolerance)
+  if (!(.002 / tolerance <= tbw0 && tbw0 <= .5 * tolerance))   /* NaN-safe */
     return "transition bandwidth not in [0.2,50] % of nyquist";
-  if (.5 / tolerance > Fp0 || Fs0 > 1.5 * tolerance)
+  if (!(.5 / tolerance <= Fp0 && Fs0 <= 1.5 * tolerance))
     return "transition band not within [50,150] % of nyquist";
-  if (bits!=0 && (15 > bits || bits > 33))
+  if (bits!=0 && !(15 <= bits && bits <= 33))
     return "precision not in [15,33] bits";
   if (!(io_ratio > 0))
     return "resampling factor not positive";
   if (!(io_ratio < 2147483648.))     /* Stage planning uses int arithmetic. */
     return "resampling factor too large";
-  if (0 > phase_response || phase_response > 100)
+  if (!(0 <= phase_response && phase_response <= 100))
     return "phase response not in [0=min-phase,100=max-phase] %";
 
   p->core = core;
